@@ -39,8 +39,19 @@ def mutable_value(v):
   return False
 
 
-def mutated_attrs(ci):
-  """{A: first mutating node} for attributes mutated in place through self in any method."""
+# methods of the built-in containers: those that change the receiver, and those that only read it.  A call of any other
+# method on self.A.… is not classified (the object may be of a repository class): the instance is then "cannot decide".
+MUTATORS = {'append', 'extend', 'insert', 'remove', 'pop', 'clear', 'sort', 'reverse', 'add', 'discard', 'update', 'setdefault', 'popitem',
+            'appendleft', 'extendleft', 'popleft', 'rotate', 'subtract', 'intersection_update', 'difference_update', 'symmetric_difference_update',
+            '__setitem__', '__delitem__'}
+READERS = {'get', 'keys', 'values', 'items', 'index', 'count', 'copy', 'most_common', 'elements', 'union', 'intersection', 'difference',
+           'symmetric_difference', 'issubset', 'issuperset', 'isdisjoint', '__contains__', '__getitem__', '__len__', '__iter__',
+           'startswith', 'endswith', 'split', 'join', 'format', 'lower', 'upper', 'strip', 'match', 'search', 'findall', 'finditer', 'fullmatch', 'sub'}
+
+
+def mutated_attrs(ci, uncertain=None):
+  """{A: first mutating node} for attributes mutated in place through self in any method.
+  uncertain: optional dict that receives {A: node} for attributes on which only unclassified methods are called."""
   out = {}
   for m in ci.methods.values():
     ps = m.params()
@@ -62,7 +73,10 @@ def mutated_attrs(ci):
       elif isinstance(n, ast.Call) and isinstance(n.func, ast.Attribute):
         a = _self_attr_root(n.func.value, me)
         if a and not (isinstance(n.func.value, ast.Name)):
-          roots.append(a)
+          if n.func.attr in MUTATORS:
+            roots.append(a)
+          elif n.func.attr not in READERS and uncertain is not None:
+            uncertain.setdefault(a, n)
       for a in roots:
         out.setdefault(a, n)
   return out
@@ -88,7 +102,10 @@ def init_bound(ci):
 def check_instance_state(ctx, ci, rule, mro=None):
   """One obligation per in-place-mutated attribute of ci: it is not a mutable
   object shared through the class body (of ci or a repository base class)."""
-  muts = mutated_attrs(ci)
+  uncertain = {}
+  muts = mutated_attrs(ci, uncertain)
+  for a, node in uncertain.items():
+    muts.setdefault(a, node)
   bound = init_bound(ci) or set()
   classes = [ci] + list(mro or [])
   n = 0
@@ -104,6 +121,8 @@ def check_instance_state(ctx, ci, rule, mro=None):
            'self.%s is mutated in place and is per-instance state' % a if ok else
            'self.%s is mutated in place (%s) but is bound once in the body of class %s to a mutable object and not rebound in __init__: all instances share it, '
            'so one parse depends on the ones before it' % (a, norm_text(node)[:60], shared[0].qualname),
-           construct='%s.%s is per-instance' % (ci.qualname, a))
+           construct='%s.%s is per-instance' % (ci.qualname, a),
+           unknown=('self.%s.%s(...) is not a known container method: whether it changes the shared object cannot be classified' % (a, node.func.attr))
+           if (a in uncertain and uncertain[a] is node) else None)
     n += 1
   return n
